@@ -26,10 +26,15 @@ CASE_TYPE = 'case'
 CHECK = 'check_case'
 SHARD = 12
 RULE = ('random sequential architectures (depth 1-4 of Conv1d with stride/dilation/padding, AvgPool1d, '
-        'MaxPool1d with stride below/equal/above the kernel and padding, Linear, every supported '
+        'MaxPool1d with stride below/equal/above the kernel, padding, dilation 1-3 and ceil_mode (its index sets are '
+        'read off the torch module by probing), Linear, every supported '
         'element-wise activation; Flatten+Linear head, optional final activation), alphabets 2-4, '
         'length 4-10, 1-2 examples, 1-3 references (given one-hot / mutated copies of x / dyadic '
-        'backgrounds / dinucleotide_shuffle), every batch size; half exact mode (small-integer weights, '
+        'backgrounds / dinucleotide_shuffle), reference tensors with an n_shuffles argument below/equal/above their '
+        'count and with 21-23 references under the default n_shuffles, every batch size; a fifth of the cases are '
+        'call sequences in one freshly reloaded module (earlier calls with additional_nonlinear_ops overriding / '
+        'adding rules on the same or another model, plain and raising calls on the same model object, then the '
+        'checked call), a tenth register further element-wise activations with the library rule; half exact mode (small-integer weights, '
         'piecewise-linear activations, Coq recomputes the forward pass), half co-simulation mode (float64 '
         'weights, smooth activations recorded by harness hooks); non-trivial = at least one registered '
         'non-linearity (activation or max-pool) whose two halves differ on some unit; cases with some '
@@ -58,13 +63,30 @@ def conv_len(l, k, s, p, d):
     return (l + 2 * p - d * (k - 1) - 1) // s + 1 if l + 2 * p >= d * (k - 1) + 1 else 0
 
 
-def gen_arch(rng, exact, allow_maxpool, affine_only=False):
+def pool_len(c, l, k, s, p, d, ceil):
+    """Output length of MaxPool1d for this geometry as torch computes it (0 if torch rejects it)."""
+    try:
+        with torch.no_grad():
+            m = torch.nn.MaxPool1d(k, stride=s, padding=p, dilation=d, ceil_mode=ceil)
+            y = m(torch.zeros(1, c, l, dtype=torch.float64))
+            # a window that lies entirely in the padding would produce -inf
+            return int(y.shape[-1]) if bool(torch.isfinite(y).all()) else 0
+    except Exception:       # noqa: BLE001
+        return 0
+
+
+EXTRA_ACTS = ['Softsign', 'Tanhshrink', 'Hardswish', 'Hardtanh']     # element-wise, not in the default table
+
+
+def gen_arch(rng, exact, allow_maxpool, affine_only=False, small=False, extra=None):
     A = rng.choice([4, 4, 4, 3, 2])
     L = rng.randint(4, 10)
-    depth = rng.randint(1, 4)
+    depth = rng.randint(1, 2) if small else rng.randint(1, 4)
     layers = []
     c, l, flat, n = A, L, False, None
     acts = EXACT_ACTS if exact else SMOOTH_ACTS
+    if extra:
+        acts = list(acts[:4]) + list(extra) * 3
     for _ in range(depth):
         if not flat:
             kinds = ['conv', 'conv', 'avgpool', 'flatlin']
@@ -80,7 +102,7 @@ def gen_arch(rng, exact, allow_maxpool, affine_only=False):
                 k = rng.randint(1, min(3, l)); s = rng.choice([1, 1, 2]); d = rng.choice([1, 1, 2])
                 p = rng.randint(0, k - 1) if rng.random() < 0.5 else 0
                 lo = conv_len(l, k, s, p, d)
-                co = rng.randint(1, 4)
+                co = rng.randint(1, 2 if small else 4)
                 if lo < 1 or co * lo * c * l > 2400:
                     continue
                 layers.append({'t': 'conv', 'cin': c, 'cout': co, 'k': k, 's': s, 'p': p, 'd': d,
@@ -97,14 +119,15 @@ def gen_arch(rng, exact, allow_maxpool, affine_only=False):
                 layers.append({'t': 'avgpool', 'k': k, 's': s, 'p': p})
                 l = lo
             elif kind == 'maxpool':
-                k = rng.choice([2, 3])
-                if k > l:
-                    continue
-                s = rng.randint(1, k + 1); p = rng.randint(0, k // 2) if rng.random() < 0.4 else 0
-                lo = conv_len(l, k, s, p, 1)
+                k = rng.choice([2, 2, 3])
+                d = rng.choice([1, 1, 1, 2, 2, 3])
+                s = rng.randint(1, k + 2)
+                p = rng.randint(0, k // 2) if rng.random() < 0.4 else 0
+                ceil = rng.random() < 0.3
+                lo = pool_len(c, l, k, s, p, d, ceil)
                 if lo < 1:
                     continue
-                layers.append({'t': 'maxpool', 'k': k, 's': s, 'p': p})
+                layers.append({'t': 'maxpool', 'k': k, 's': s, 'p': p, 'd': d, 'ceil': ceil})
                 l = lo
             elif kind == 'act':
                 if layers and layers[-1]['t'] == 'act' and rng.random() < 0.7:
@@ -130,15 +153,59 @@ def gen_arch(rng, exact, allow_maxpool, affine_only=False):
     return A, L, layers, nout
 
 
+def gen_pre(rng, layers, exact):
+    """Calls made in the same process BEFORE the checked call (cross-call state must not leak):
+    a call that overrides the rule of an activation type of the checked model / registers a rule
+    for one of its linear layer types through additional_nonlinear_ops (on the same model object
+    or on another model), a plain call on the same model object with other inputs, a call that
+    raises half-way on the same model object."""
+    pre = []
+    acts = sorted({ly['name'] for ly in layers if ly['t'] == 'act'})
+    lin = sorted({{'conv': 'Conv1d', 'linear': 'Linear', 'avgpool': 'AvgPool1d', 'maxpool': 'MaxPool1d',
+                   'flatten': 'Flatten'}[ly['t']] for ly in layers if ly['t'] != 'act'})
+    for _ in range(rng.randint(1, 2)):
+        kind = rng.choice(['override', 'override', 'add', 'plain', 'raise'])
+        if kind == 'override' and not acts:
+            kind = 'add'
+        if kind == 'override':
+            pre.append({'kind': 'ops', 'type': rng.choice(acts), 'rule': rng.choice(['grad', 'zero', 'double']),
+                        'same_model': rng.random() < 0.5, 'seed': rng.randrange(10 ** 6)})
+        elif kind == 'add':
+            pre.append({'kind': 'ops', 'type': rng.choice(lin), 'rule': rng.choice(['zero', 'double']),
+                        'same_model': rng.random() < 0.5, 'seed': rng.randrange(10 ** 6)})
+        elif kind == 'plain':
+            pre.append({'kind': 'plain', 'seed': rng.randrange(10 ** 6), 'batch_size': rng.choice([1, 2, 32]),
+                        'hypothetical': rng.random() < 0.5, 'raw': rng.random() < 0.5})
+        else:
+            pre.append({'kind': 'raise', 'seed': rng.randrange(10 ** 6)})
+    return pre
+
+
 def gen_input(rng, exact, allow_maxpool, affine_only=False):
-    A, L, layers, nout = gen_arch(rng, exact, allow_maxpool, affine_only)
-    B = rng.choice([1, 1, 2])
-    ns = rng.randint(1, 3)
-    return {'mode': 'exact' if exact else 'cosim', 'A': A, 'L': L, 'layers': layers, 'nout': nout,
-            'target': rng.randrange(nout), 'B': B, 'ns': ns,
-            'batch_size': rng.choice([1, 2, 3, B * ns, B * ns + 1, 32]),
-            'refs': rng.choice(['onehot', 'mutate', 'mutate', 'mutate', 'dyadic', 'shuffle']),
-            'seed': rng.randrange(10 ** 9)}
+    u = rng.random()
+    many = u < 0.06                       # more than 20 references with n_shuffles left at its default
+    extra = None
+    if not exact and not affine_only and 0.06 <= u < 0.16:
+        extra = rng.sample(EXTRA_ACTS, rng.randint(1, 2))    # registered through additional_nonlinear_ops
+    A, L, layers, nout = gen_arch(rng, exact, allow_maxpool, affine_only, small=many, extra=extra)
+    used_extra = sorted({ly['name'] for ly in layers if ly['t'] == 'act' and ly['name'] in EXTRA_ACTS})
+    B = 1 if many else rng.choice([1, 1, 2])
+    ns = rng.randint(21, 23) if many else rng.randint(1, 3)
+    refs = rng.choice(['onehot', 'mutate', 'mutate']) if many else \
+        rng.choice(['onehot', 'mutate', 'mutate', 'mutate', 'dyadic', 'shuffle'])
+    inp = {'mode': 'exact' if exact else 'cosim', 'A': A, 'L': L, 'layers': layers, 'nout': nout,
+           'target': rng.randrange(nout), 'B': B, 'ns': ns,
+           'batch_size': rng.choice([1, 2, 3, B * ns, B * ns + 1, 32]),
+           'refs': refs, 'seed': rng.randrange(10 ** 9)}
+    # a reference TENSOR comes with an n_shuffles argument that is documented as ignored: smaller
+    # than, equal to or larger than the number of references given (None = the default, 20)
+    if refs != 'shuffle' and not many and rng.random() < 0.4:
+        inp['ns_arg'] = rng.choice([1, max(1, ns - 1), ns, ns + 2])
+    if used_extra:
+        inp['extra_ops'] = used_extra
+    if rng.random() < 0.22 or used_extra and rng.random() < 0.5:
+        inp['pre'] = gen_pre(rng, layers, exact)
+    return inp
 
 
 def make_act(name):
@@ -151,6 +218,8 @@ def make_act(name):
         return nn.RReLU(0.125, 0.375)
     if name == 'Softshrink':
         return nn.Softshrink(0.5)
+    if name == 'Hardtanh':
+        return nn.Hardtanh(-0.5, 0.75)
     return getattr(nn, name)()
 
 
@@ -184,7 +253,8 @@ def build(inp):
         elif t == 'avgpool':
             m = nn.AvgPool1d(ly['k'], stride=ly['s'], padding=ly['p'])
         elif t == 'maxpool':
-            m = nn.MaxPool1d(ly['k'], stride=ly['s'], padding=ly['p'])
+            m = nn.MaxPool1d(ly['k'], stride=ly['s'], padding=ly['p'], dilation=ly.get('d', 1),
+                             ceil_mode=bool(ly.get('ceil', False)))
         elif t == 'flatten':
             m = nn.Flatten()
         elif t == 'act':
@@ -249,27 +319,93 @@ def analyse(inp):
     return res
 
 
+def _dls():
+    import tangermeme.deep_lift_shap as D
+    return D
+
+
 def _run_dls(model, X, refs, inp, **kw):
-    from tangermeme.deep_lift_shap import deep_lift_shap
+    D = _dls()
     from tangermeme.ersatz import dinucleotide_shuffle
+    if inp.get('extra_ops'):
+        # the documented way to support a further element-wise activation: the library's own rule
+        kw['additional_nonlinear_ops'] = {getattr(torch.nn, n): D._nonlinear for n in inp['extra_ops']}
     with warnings.catch_warnings(record=True) as w:
         warnings.simplefilter('always')
         if refs is None:
-            out = deep_lift_shap(model, X, target=inp['target'], batch_size=inp['batch_size'],
-                                 references=dinucleotide_shuffle, n_shuffles=inp['ns'],
-                                 random_state=inp['seed'] % 1000, device='cpu', **kw)
+            out = D.deep_lift_shap(model, X, target=inp['target'], batch_size=inp['batch_size'],
+                                   references=dinucleotide_shuffle, n_shuffles=inp['ns'],
+                                   random_state=inp['seed'] % 1000, device='cpu', **kw)
         else:
-            out = deep_lift_shap(model, X, target=inp['target'], batch_size=inp['batch_size'],
-                                 references=refs, device='cpu', **kw)
+            if inp.get('ns_arg') is not None:
+                kw['n_shuffles'] = inp['ns_arg']       # documented as ignored for a reference tensor
+            out = D.deep_lift_shap(model, X, target=inp['target'], batch_size=inp['batch_size'],
+                                   references=refs, device='cpu', **kw)
     warned = any(issubclass(x.category, RuntimeWarning) for x in w)
     return out, warned
 
 
+def _custom_rule(name):
+    if name == 'grad':
+        return lambda module, grad_input, grad_output: grad_input
+    if name == 'zero':
+        return lambda module, grad_input, grad_output: (torch.zeros_like(grad_input[0]),)
+    return lambda module, grad_input, grad_output: (2.0 * grad_input[0],)
+
+
+def _run_pre(step, model, inp):
+    """One earlier call in the same process; its result is not judged, exceptions are swallowed."""
+    import random
+    D = _dls()
+    nn = torch.nn
+    r = random.Random(step['seed'])
+    A, L = inp['A'], inp['L']
+
+    def onehot():
+        x = torch.zeros(A, L, dtype=torch.float64)
+        for p in range(L):
+            x[r.randrange(A), p] = 1.0
+        return x
+    X1 = torch.stack([onehot() for _ in range(2)])
+    R1 = torch.stack([torch.stack([onehot() for _ in range(2)]) for _ in range(2)])
+    try:
+        with warnings.catch_warnings():
+            warnings.simplefilter('ignore')
+            if step['kind'] == 'ops':
+                cls = getattr(nn, step['type'])
+                if step['same_model']:
+                    m = model
+                elif step['type'] == 'Conv1d':
+                    m = nn.Sequential(nn.Conv1d(A, 2, 1), nn.Flatten(), nn.Linear(2 * L, 1)).double()
+                elif step['type'] in ('AvgPool1d', 'MaxPool1d'):
+                    m = nn.Sequential(cls(1), nn.Flatten(), nn.Linear(A * L, 1)).double()
+                elif step['type'] in ('Linear', 'Flatten'):
+                    m = nn.Sequential(nn.Flatten(), nn.Linear(A * L, 1)).double()
+                else:
+                    m = nn.Sequential(nn.Flatten(), nn.Linear(A * L, 3), make_act(step['type']),
+                                      nn.Linear(3, 1)).double()
+                D.deep_lift_shap(m, X1, references=R1, device='cpu',
+                                 additional_nonlinear_ops={cls: _custom_rule(step['rule'])})
+            elif step['kind'] == 'plain':
+                D.deep_lift_shap(model, X1, references=R1, device='cpu', batch_size=step['batch_size'],
+                                 hypothetical=step['hypothetical'], raw_outputs=step['raw'])
+            else:   # a call that raises after the hooks were registered (reference length mismatch)
+                D.deep_lift_shap(model, X1, references=R1[:, :, :, :max(1, L - 1)], device='cpu')
+    except Exception:       # noqa: BLE001
+        pass
+
+
 def _analyse(inp):
+    import importlib
+    importlib.reload(_dls())             # every case starts from a freshly loaded module: the calls
+    #                                      of one case (pre steps + checked call) share its state,
+    #                                      different cases do not, so every failing case replays alone
     model, X, refs = build(inp)
     twin = copy.deepcopy(model)          # never touched by tangermeme
     B, ns, A, L = inp['B'], inp['ns'], inp['A'], inp['L']
     res = {'model': twin, 'X': X}
+    for step in inp.get('pre', []):
+        _run_pre(step, model, inp)
     # ---- implementation
     try:
         X0 = X.clone()
@@ -281,14 +417,17 @@ def _analyse(inp):
             used = refs
         hyp, w2 = _run_dls(model, X, refs, inp, hypothetical=True)
         att, w3 = _run_dls(model, X, refs, inp)
-        ok = (tuple(raw.shape) == (B, ns, A, L) and tuple(hyp.shape) == (B, A, L)
+        # the number of multiplier vectors per example is passed on as returned: the spec demands
+        # one per given reference
+        ok = (raw.dim() == 4 and tuple(raw.shape[:1] + raw.shape[2:]) == (B, A, L)
+              and tuple(hyp.shape) == (B, A, L)
               and tuple(att.shape) == (B, A, L) and tuple(used.shape) == (B, ns, A, L)
               and bool(torch.equal(X, X0)))
         finite = bool(torch.isfinite(raw).all() and torch.isfinite(hyp).all() and torch.isfinite(att).all())
         why = 'shape or input mutated' if not ok else ('non-finite value returned' if not finite else None)
         ok = ok and finite       # NaN / inf cannot satisfy any equation of the spec: reported as Err
         out = {'ok': bool(ok), 'warn': bool(w1 or w2 or w3),
-               'mult': raw.double().reshape(B, ns, A * L).tolist() if ok else None,
+               'mult': raw.double().reshape(B, raw.shape[1], A * L).tolist() if ok else None,
                'hyp': hyp.double().reshape(B, A * L).tolist() if ok else None,
                'attr': att.double().reshape(B, A * L).tolist() if ok else None}
         if not ok:
@@ -400,6 +539,15 @@ def probe_affine(m, shape):
     return Wt.t().tolist(), b.tolist()
 
 
+def probe_windows(m, c, l):
+    """Index sets of a pooling module on a (c, l) input, read off the module itself: output unit j
+    reads input i iff the image of the basis vector e_i is 1 at j.  Positions in increasing order."""
+    n = c * l
+    with torch.no_grad():
+        img = m(torch.eye(n, dtype=torch.float64).reshape(n, c, l)).reshape(n, -1)
+    return [[i for i in range(n) if img[i, j] == 1.0] for j in range(img.shape[1])]
+
+
 def coq_case(inp, out):
     a = analyse(inp)
     skip = bool(a.get('band'))
@@ -420,8 +568,7 @@ def coq_case(inp, out):
             names[idx] = '(NAffine w%d b%d)' % (idx, idx)
         elif t == 'maxpool':
             c, l = shapes[idx]
-            lets.append('let p%d := pool_windows %s %s %s %s %s 1%%nat in' % (
-                idx, C.nat(c), C.nat(l), C.nat(ly['k']), C.nat(ly['s']), C.nat(ly['p'])))
+            lets.append('let p%d := %s in' % (idx, C.lst([C.natlist(w) for w in probe_windows(m, c, l)])))
     for b in range(B):
         rec, y = a['cosim'][b]
         pairs = []
@@ -458,7 +605,7 @@ def coq_case(inp, out):
     if out['ok']:
         outs = []
         for b in range(B):
-            outs.append('(Out %s %s %s)' % (C.lst([C.lst([fl(v) for v in out['mult'][b][j]]) for j in range(ns)]),
+            outs.append('(Out %s %s %s)' % (C.lst([C.lst([fl(v) for v in mv]) for mv in out['mult'][b]]),
                                             C.lst([fl(v) for v in out['hyp'][b]]),
                                             C.lst([fl(v) for v in out['attr'][b]])))
         o = '(Ok (%s, %s))' % (C.lst(outs), C.boolean(out['warn']))
@@ -485,6 +632,16 @@ def arch_key(inp):
         k.append('act')
     if not k:
         k.append('affine')
+    if any(ly['t'] == 'maxpool' and (ly.get('d', 1) > 1 or ly.get('ceil')) for ly in inp['layers']):
+        k.append('dil/ceil')
+    if inp.get('pre'):
+        k.append('pre')
+    if inp.get('ns_arg') is not None:
+        k.append('nsarg')
+    if inp['ns'] > 20:
+        k.append('many')
+    if inp.get('extra_ops'):
+        k.append('extra')
     return '+'.join(k)
 
 
@@ -514,6 +671,19 @@ def generate(tier, rng):
 
 
 def shrink(inp):
+    if inp.get('pre'):
+        for i in range(len(inp['pre'])):
+            rest = inp['pre'][:i] + inp['pre'][i + 1:]
+            c = dict(inp)
+            if rest:
+                c['pre'] = rest
+            else:
+                del c['pre']
+            yield c
+    if inp.get('ns_arg') is not None:
+        c = dict(inp)
+        del c['ns_arg']
+        yield c
     if inp['B'] > 1:
         yield dict(inp, B=1)
     if inp['ns'] > 1:
